@@ -101,10 +101,19 @@ fn shapes() -> Vec<Shape> {
     three_ns.namespaces = vec![s("NS"), s("N2"), s("N3")];
     three_ns.log_group = Some(s("lg"));
     let f = frame_minimal();
+    let mut sampled = CfgD::simple(Ctor::AllValidations);
+    sampled.mult = Mult::Two;
+    let mut rich = CfgD::simple(Ctor::Builder);
+    rich.namespaces = vec![s("NS"), s("N\"2")];
+    rich.extra_directive = true;
+    rich.log_group = Some(s("lg"));
+    rich.default_dims = vec![vec![], vec![s("A")]];
     vec![
         Shape { name: "single-line", entry: build_entry(&plain, f, vec![(s("M"), m(vec![Obs::U(7)], vec![])), (s("S"), ValD::Str(s("text\"q")))]), cfg: plain.clone() },
         Shape { name: "strings-only (empty fields buffer)", entry: build_entry(&plain, f, vec![(s("S"), ValD::Str(s("only")))]), cfg: plain.clone() },
         Shape { name: "three-namespaces", entry: build_entry(&three_ns, f, vec![(s("M"), m(vec![Obs::U(7), Obs::F(2.5)], vec![]))]), cfg: three_ns },
+        Shape { name: "sampled-weight-2", entry: build_entry(&sampled, f, vec![(s("M"), m(vec![Obs::U(7), Obs::R(9.0, 3)], vec![]))]), cfg: sampled.clone() },
+        Shape { name: "options-and-entry-dimensions", entry: build_entry(&rich, Frame { ts: TsD::Small, edims: EDimsD::Two, dim_strings_last: true, always_split: false }, vec![(s("a\"b"), m(vec![Obs::F(2.5)], vec![])), (s("S"), ValD::Str(s("\u{1f}x")))]), cfg: rich.clone() },
         Shape { name: "split-into-three-lines", entry: build_entry(&plain, f, vec![
             (s("M"), m(vec![Obs::U(7)], vec![(s("k"), s("v"))])),
             (s("N"), m(vec![Obs::U(8)], vec![(s("k"), s("w"))])),
@@ -243,7 +252,21 @@ fn writer_part(rep: &mut Report) {
                     run_script(st, shape, &pristine, &reference, vec![first, (j, Act::Accept(k))], None);
                 }
                 for a in [Act::Zero, Act::Interrupted, Act::Hard] {
-                    run_script(st, shape, &pristine, &reference, vec![first, (j, a)], None);
+                    let offered2 = run_script(st, shape, &pristine, &reference, vec![first, (j, a)], None);
+                    // thorough: a third deviation after an Interrupted second one
+                    if tier == Tier::Thorough && a == Act::Interrupted {
+                        for l in (j + 1)..offered2.len() {
+                            let off = offered2[l];
+                            for k in [1, off / 2, off.saturating_sub(1)] {
+                                if k >= 1 && k < off {
+                                    run_script(st, shape, &pristine, &reference, vec![first, (j, a), (l, Act::Accept(k))], None);
+                                }
+                            }
+                            for a3 in [Act::Zero, Act::Interrupted, Act::Hard] {
+                                run_script(st, shape, &pristine, &reference, vec![first, (j, a), (l, a3)], None);
+                            }
+                        }
+                    }
                 }
             }
         }));
@@ -418,7 +441,7 @@ fn main() {
     writer_part(&mut rep);
     sink_part(&mut rep);
     std::panic::set_hook(prev);
-    rep.set("rule", "writer: for 4 record shapes (single line, strings only, 3 namespaces, split into 3 lines) every script with at most 2 deviations from 'accept everything' - at every write call: accept k bytes for EVERY 1<=k<offered, Ok(0), Interrupted, hard error (second deviation at every later call of the run; for records above 400 bytes the second deviation's k is taken from {1, half, all-but-one} in the quick tier) - and every 'at most k bytes per call' script; sinks: every {Ok,Validation,Io}^n result script x every flush-error subset through FlushImmediately (typed, boxed, any) and every pair of scripts through Tee. distinct = distinct (shape, deviation kinds) classes + distinct result scripts");
+    rep.set("rule", "writer: for 6 record shapes (single line, strings only, 3 namespaces, sampled with weight 2, all builder options + entry dimensions, split into 3 lines) every script with at most 2 deviations from 'accept everything' - at every write call: accept k bytes for EVERY 1<=k<offered, Ok(0), Interrupted, hard error (second deviation at every later call of the run; for records above 400 bytes the second deviation's k is taken from {1, half, all-but-one} in the quick tier) - and every 'at most k bytes per call' script; sinks: every {Ok,Validation,Io}^n result script x every flush-error subset through FlushImmediately (typed, boxed, any) and every pair of scripts through Tee. distinct = distinct (shape, deviation kinds) classes + distinct result scripts");
     rep.set("exhaustive", true);
     rep.assume("background queue under stream errors: explored under loom in C01 (all result scripts) - not repeated here");
     rep.assume("accepted bytes are compared with the records of an all-accepting writer as a multiset of lines (split records have no defined order)");
